@@ -277,8 +277,12 @@ impl Check for C13 {
         }
 
         // (5)(6) differential: a key alone gets the same decisions (cleanup fires at other moments)
-        let keys: Vec<u32> = by_key.keys().copied().collect();
-        if keys.len() > 1 {
+        // (keys that come back are the interesting ones; one-shot keys only if there is nothing else)
+        let mut keys: Vec<u32> = by_key.iter().filter(|(_, xs)| xs.len() > 1).map(|(k, _)| *k).collect();
+        if keys.is_empty() {
+            keys = by_key.keys().copied().collect();
+        }
+        if by_key.len() > 1 {
             let mut chosen = BTreeSet::new();
             let mut r = Rng::new(sc.seed ^ 0x55);
             for _ in 0..3 {
